@@ -18,6 +18,13 @@ every clock advance):
   `lockSectorRetryTimeoutDuration` (3 min, regenerated) plus one attempt — it is NOT cut by `maxTime`
   (`C15_counterexample`).
 
+* `no_lock_left_behind`, `records_always_owned` (§7, Model R-items) — for every tracker, every script of loop
+  decisions and every interleaving with other transactions: no item lock record under one of the transaction's
+  LockIDs survives the end of Commit (success, give-up or error), provided no `lock` call returns between its
+  write and its verifying read and no refetch fails part-way (`Benign`); without the proviso: FALSE
+  (`C15_items_counterexample_lock_early_return`, `C15_items_counterexample_failed_refetch`, findings C15-F4/F5);
+  `identity_dropped_for_reads_leaks`: the replay must keep the lock identity of READ items too.
+
 What is not a theorem: wall-clock duration, scheduling, file-system latency — measured by the harness.
 -/
 namespace Sop.C15
@@ -826,6 +833,43 @@ theorem records_always_owned (c : Cfg) (start : Nat) (hk : Bool) (trk : List Trk
     Known (runR keepAll c (initR c start hk trk cache n Window.none) es).i.cache
           (runR keepAll c (initR c start hk trk cache n Window.none) es).i.trk :=
   (runR_good c es _ hb (initR_good c start hk trk cache n h0 hn)).known
+
+theorem scanA_free (c : RCache) : ∀ (trk : List Trk), (∀ t ∈ trk, c t.item = none) → scanA c trk ≠ none := by
+  intro trk
+  induction trk with
+  | nil => intro _; simp [scanA]
+  | cons t ts ih =>
+    intro h
+    have h1 := ih (fun x hx => h x (List.mem_cons_of_mem _ hx))
+    have ht := h t List.mem_cons_self
+    unfold scanA
+    split
+    · exact h1
+    · rw [ht]; simp only []
+      cases hs : scanA c ts with
+      | none => exact absurd hs h1
+      | some r => simp
+
+/-- Behavioural form: once the transaction has ended, a later transaction's `lock` (first pass) is not refused on
+account of the finished transaction: if nobody ELSE holds a record on the follower's items, its lock attempt
+finds no record at all. -/
+theorem follower_not_refused (c : Cfg) (start : Nat) (hk : Bool) (trk : List Trk) (cache : RCache) (n : Nat)
+    (h0 : OwnFree cache) (hn : (trk.map (·.item)).Nodup) (es : List REv) (hb : es.all Benign = true)
+    (hend : (runR keepAll c (initR c start hk trk cache n Window.none) es).i.ended = true)
+    (follower : List Trk)
+    (hothers : ∀ t ∈ follower, ∀ l a,
+      (runR keepAll c (initR c start hk trk cache n Window.none) es).i.cache t.item = some (l, a) → l.own = true) :
+    scanA (runR keepAll c (initR c start hk trk cache n Window.none) es).i.cache follower ≠ none := by
+  apply scanA_free
+  intro t ht
+  have hof := no_lock_left_behind c start hk trk cache n h0 hn es hb hend
+  cases hc : (runR keepAll c (initR c start hk trk cache n Window.none) es).i.cache t.item with
+  | none => rfl
+  | some v =>
+    obtain ⟨l, a⟩ := v
+    have h1 := hof t.item l a hc
+    have h2 := hothers t ht l a hc
+    rw [h1] at h2; simp at h2
 
 /-! ### witnesses -/
 
